@@ -37,6 +37,69 @@ func conc(args []string) {
 	defer f.Close()
 	total := 0
 	master := gen.New(*seed)
+	// cold start: the very first library calls of the process are made by all goroutines at once (whatever the
+	// package initialises lazily is initialised under contention). What they do first rotates with the seed:
+	// decode an extended report holding every block kind, encode and size one, or one packet of every kind.
+	{
+		xr := abs.V{"k": "XR", "sender": abs.L{1, 2, 3, 4}, "blocks": abs.L{}}
+		gx := gen.New(*seed + 77)
+		for len(abs.List(xr["blocks"])) < 24 {
+			xr["blocks"] = append(abs.List(xr["blocks"]), gx.XRBlock())
+		}
+		var xrBytes []byte
+		mode := int(*seed % 3)
+		start := make(chan struct{})
+		cbufs := make([]*bytes.Buffer, *gor)
+		ccounts := make([]int, *gor)
+		var wg sync.WaitGroup
+		for gi := 0; gi < *gor; gi++ {
+			cbufs[gi] = &bytes.Buffer{}
+			wg.Add(1)
+			go func(gi int) {
+				defer wg.Done()
+				s := exec.New(cbufs[gi])
+				s.NoAlloc = true
+				g := gen.New(*seed*31 + int64(gi))
+				<-start
+				switch mode {
+				case 0:
+					scriptDgram(s, xrBytes)
+				case 1:
+					scriptRT(s, xr)
+				default:
+					for _, k := range g.Kinds() {
+						scriptRT(s, g.Of(k))
+					}
+				}
+				seqs := make([]uint16, 40)
+				for i := range seqs {
+					seqs[i] = uint16(gi*1000 + i*3)
+				}
+				scriptNack(s, seqs)
+				ccounts[gi] = s.N
+			}(gi)
+		}
+		if mode == 0 {
+			// the datagram the goroutines decode is written by hand below the library: header, sender, one block of each kind
+			xrBytes = []byte{0x80, 207, 0, 0, 1, 2, 3, 4,
+				4, 0, 0, 2, 1, 2, 3, 4, 5, 6, 7, 8,
+				5, 0, 0, 3, 1, 1, 1, 1, 2, 2, 2, 2, 3, 3, 3, 3,
+				1, 0, 0, 3, 9, 9, 9, 9, 0, 1, 0, 5, 0x40, 5, 0, 0,
+				2, 0, 0, 3, 9, 9, 9, 9, 0, 1, 0, 5, 0x80, 5, 0, 0,
+				3, 0, 0, 3, 9, 9, 9, 9, 0, 1, 0, 2, 0, 0, 0, 7,
+				6, 0xE8, 0, 9, 9, 9, 9, 9, 0, 1, 0, 2, 0, 0, 0, 1, 0, 0, 0, 2, 0, 0, 0, 3, 0, 0, 0, 4, 0, 0, 0, 5, 0, 0, 0, 6, 1, 2, 3, 4,
+				7, 0, 0, 8, 9, 9, 9, 9, 1, 2, 3, 4, 0, 5, 0, 6, 0, 7, 0, 8, 9, 10, 11, 12, 13, 14, 15, 16, 17, 0, 0, 18, 0, 19, 0, 20,
+				77, 1, 0, 1, 1, 2, 3, 4}
+			n := len(xrBytes)/4 - 1
+			xrBytes[2], xrBytes[3] = byte(n>>8), byte(n)
+		}
+		close(start)
+		wg.Wait()
+		for gi := range cbufs {
+			f.Write(cbufs[gi].Bytes())
+			total += ccounts[gi]
+		}
+	}
 	for round := 0; round < *n; round++ {
 		runtime.GOMAXPROCS([]int{2, 4, 8, 16}[round%4])
 		// shared packets: built values and packets returned by rtcp.Unmarshal
@@ -93,6 +156,13 @@ func conc(args []string) {
 						scriptRT(s, g.Any())
 					case 3: // decoding private bytes
 						scriptDgram(s, fuzzInput(g))
+						if r.Intn(3) == 0 { // the stateless helpers, on private lists
+							seqs := make([]uint16, r.Intn(60))
+							for i := range seqs {
+								seqs[i] = uint16(r.Intn(65536))
+							}
+							scriptNack(s, seqs)
+						}
 					}
 				}
 				counts[gi] = s.N
